@@ -1571,22 +1571,25 @@ namespace awkward {
           tags_.length(),
           offsetsraws.data());
         util::handle_error(err2, classname(), identities_.get());
+        UnionArray8_64 out(Identities::none(),
+                           util::Parameters(),
+                           totags,
+                           toindex,
+                           contents);
+        // a flattened content may itself be a union (lists of unions)
         return std::pair<Index64, ContentPtr>(
           tooffsets,
-          std::make_shared<UnionArray8_64>(Identities::none(),
-                                           util::Parameters(),
-                                           totags,
-                                           toindex,
-                                           contents));
+          out.simplify_uniontype(false, false));
       }
       else {
+        UnionArrayOf<T, I> out(Identities::none(),
+                               util::Parameters(),
+                               tags_,
+                               index_,
+                               contents);
         return std::pair<Index64, ContentPtr>(
           Index64(0),
-          std::make_shared<UnionArrayOf<T, I>>(Identities::none(),
-                                               util::Parameters(),
-                                               tags_,
-                                               index_,
-                                               contents));
+          out.simplify_uniontype(false, false));
       }
     }
   }
@@ -2047,11 +2050,13 @@ namespace awkward {
       for (auto content : contents_) {
         contents.push_back(content.get()->localindex(posaxis, depth));
       }
-      return std::make_shared<UnionArrayOf<T, I>>(identities_,
-                                                  util::Parameters(),
-                                                  tags_,
-                                                  index_,
-                                                  contents);
+      UnionArrayOf<T, I> out(identities_,
+                             util::Parameters(),
+                             tags_,
+                             index_,
+                             contents);
+      // the result of a content may itself be a union (an IndexedArray over a union)
+      return out.simplify_uniontype(false, false);
     }
   }
 
@@ -2082,11 +2087,13 @@ namespace awkward {
                                                        posaxis,
                                                        depth));
       }
-      return std::make_shared<UnionArrayOf<T, I>>(identities_,
-                                                  util::Parameters(),
-                                                  tags_,
-                                                  index_,
-                                                  contents);
+      UnionArrayOf<T, I> out(identities_,
+                             util::Parameters(),
+                             tags_,
+                             index_,
+                             contents);
+      // the result of a content may itself be a union (an IndexedArray over a union)
+      return out.simplify_uniontype(false, false);
     }
   }
 
